@@ -133,7 +133,8 @@ namespace sim
               g.x_min = g.y_min = 0;
               g.x_max = g.y_max = 1;
               g.z_max = w.radius;
-              g.z_min = w.radius * rng.real(0.3, 0.8);
+              // now and then a full ball: the innermost layer is the centre itself
+              g.z_min = rng.chance(0.15) ? 0.0 : w.radius * rng.real(0.3, 0.8);
             }
           if (g.type == "cartesian" && !w.feature_names.empty() && w.feature_names[0] == "slow slab" && w.has_cs)
             {
@@ -281,6 +282,10 @@ namespace sim
           }
         static const int tcounts[] = {2, 2, 3, 3, 4, 5, 8, 12, 16, 32};
         const int T = tcounts[rng.below(tier == "thorough" ? 10 : 8)];
+        // now and then the clients ask (almost) nothing but distances to the named features of the first world
+        const bool distance_storm = ws[0].feature_names.size() >= 2 && rng.chance(0.12);
+        if (distance_storm)
+          s.generator = "c14/clients+distances";
         std::vector<Slot> slots(ws.size());
         for (int t = 0; t < T; ++t)
           {
@@ -296,7 +301,7 @@ namespace sim
                     q.op = "size";
                     q.props = random_props(ws[wi], rng, 8, true);
                   }
-                else if (sel < 0.1 && !ws[wi].feature_names.empty())
+                else if ((sel < 0.1 || (distance_storm && wi == 0 && sel < 0.9)) && !ws[wi].feature_names.empty())
                   {
                     q.op = "dist";
                     const ProbePoint pp = probe_point(ws[wi], rng);
@@ -313,6 +318,12 @@ namespace sim
             s.threads.push_back(ops);
           }
         s.sched = random_sched(srng, T);
+        if (distance_storm && srng.chance(0.7))
+          {
+            // short slices: the interesting interleavings are inside one call
+            static const uint32_t mean[] = {20, 50, 100, 300};
+            s.sched.preempt = mean[srng.below(4)];
+          }
         return true;
       }
     // ---- part B: gwb-grid with -j N against -j 1
@@ -385,9 +396,11 @@ namespace sim
     const bool comma = rng.chance(0.3);
     const int malformed_mode = rng.chance(0.12) ? static_cast<int>(rng.range(1, 6)) : 0;
     std::ostringstream o;
+    // comment and option lines are recognised by their first word, so they may be indented
+    const std::string indent = rng.chance(0.12) ? (rng.chance(0.5) ? "   " : "\t") : "";
     auto opt = [&](const std::string &line)
     {
-      o << line << "\n";
+      o << indent << line << "\n";
     };
     if (rng.chance(0.5))
       opt("# This is a comment in the data");
